@@ -70,6 +70,15 @@ var wrappers = []wrapper{
 	{"not", func(p sqlgen.X) sqlgen.X { return sqlgen.Not(p) }},
 	{"parens", func(p sqlgen.X) sqlgen.X { return sqlgen.Extra(p, 1) }},
 	{"and-parens", func(p sqlgen.X) sqlgen.X { return sqlgen.Bin("AND", sqlgen.Col("c8"), sqlgen.Extra(p, 2)) }},
+	{"or-left", func(p sqlgen.X) sqlgen.X {
+		return sqlgen.Bin("OR", p, sqlgen.Bin("=", sqlgen.Col("c8"), sqlgen.Int("3")))
+	}},
+	{"not-or-left", func(p sqlgen.X) sqlgen.X {
+		return sqlgen.Bin("OR", sqlgen.Not(sqlgen.Extra(p, 1)), sqlgen.Bin("=", sqlgen.Col("c8"), sqlgen.Int("3")))
+	}},
+	{"chain-leftmost", func(p sqlgen.X) sqlgen.X {
+		return sqlgen.Bin("AND", sqlgen.Bin("AND", p, sqlgen.Col("c7")), sqlgen.Bin("=", sqlgen.Col("c8"), sqlgen.Int("3")))
+	}},
 	{"deep", func(p sqlgen.X) sqlgen.X {
 		return sqlgen.Bin("AND", sqlgen.Col("c8"), sqlgen.Bin("OR", sqlgen.Col("c7"), sqlgen.Bin("AND", sqlgen.Not(sqlgen.Col("c6")), p)))
 	}},
@@ -274,16 +283,24 @@ func Check() *common.Check {
 			for _, p := range payloads() {
 				p := p
 				ws := wrappers
-				if !p.cond {
-					ws = wrappers[:1]
-				}
 				for _, ps := range positions {
 					ps := ps
 					isCond := condHole[ps.name] || strings.HasPrefix(ps.name, "nested:")
 					if p.cond && !isCond {
 						continue
 					}
-					for _, w := range ws {
+					pws := ws
+					if !p.cond {
+						if isCond {
+							// a call used as (part of) a condition: every boolean wrapper plus comparison operands
+							pws = append(append([]wrapper{}, ws...),
+								wrapper{"cmp-left", func(q sqlgen.X) sqlgen.X { return sqlgen.Bin("=", q, sqlgen.Int("0")) }},
+								wrapper{"cmp-right", func(q sqlgen.X) sqlgen.X { return sqlgen.Bin("=", sqlgen.Int("0"), q) }})
+						} else {
+							pws = ws[:1]
+						}
+					}
+					for _, w := range pws {
 						w := w
 						k := fmt.Sprintf("%s|%s|%s", p.name, ps.name, w.name)
 						e.Do(k, func(c *common.Ctx) {
